@@ -7,6 +7,24 @@ pub assume_specification[ u64::abs_diff ](a: u64, b: u64) -> (r: u64)
     ensures r == (if a >= b { a - b } else { b - a });
 
 
+/// R21: `unsafe { slice::from_raw_parts(E.as_ptr() as *const _, N) }` reinterpreting bytes as u64s.  The precondition is the in-bounds part of
+/// the documented safety condition; ALIGNMENT IS NOT MODELLED (unverified unsafe, DESIGN.md 13).  Elements are native-endian values.
+pub uninterp spec fn u64_from_ne(b: Seq<u8>) -> u64;
+pub uninterp spec fn u64_from_be_spec(x: u64) -> u64;
+/// u64::from_be(u64::from_ne_bytes(b)) == u64::from_be_bytes(b) on every target
+#[verifier::external_body]
+pub broadcast proof fn axiom_from_be_ne(b: Seq<u8>) requires b.len() == 8 ensures #[trigger] u64_from_be_spec(u64_from_ne(b)) as nat == be_val(b) {}
+#[verifier::external_body]
+pub fn verif_from_raw_parts<'a>(bytes: &'a [u8], n: usize) -> (r: &'a [u64])
+    requires bytes@.len() >= 8 * n
+    ensures r@.len() == n, forall|i: int| 0 <= i < n ==> #[trigger] r@[i] == u64_from_ne(bytes@.subrange(8 * i, 8 * i + 8))
+{ unimplemented!() }
+pub assume_specification[ u64::from_be ](x: u64) -> (r: u64) ensures r == u64_from_be_spec(x);
+/// R22: `a.iter_mut().zip(b).for_each(|(l, r)| *l ^= r)`
+pub closed spec fn xor_seq(a: Seq<u8>, b: Seq<u8>) -> Seq<u8> { Seq::new(a.len(), |i: int| if i < b.len() { a[i] ^ b[i] } else { a[i] }) }
+#[verifier::external_body]
+pub fn verif_xor_in_place(a: &mut BytesMut, b: BytesMut) ensures final(a)@ == xor_seq(old(a)@, b@) { unimplemented!() }
+
 /// R14: `[a, b].concat()`
 #[verifier::external_body]
 pub fn verif_concat2(a: &[u8], b: &[u8]) -> (r: Vec<u8>) ensures r@ == a@ + b@ { unimplemented!() }
